@@ -19,6 +19,8 @@ import core  # noqa: E402
 
 
 def main():
+    import logging
+    logging.disable(logging.CRITICAL)   # the library logs warnings for skipped tests etc.
     ap = argparse.ArgumentParser()
     ap.add_argument("pid")
     ap.add_argument("--tier", default=os.environ.get("VERIF_TIER", "quick"))
